@@ -166,6 +166,20 @@ int FsDropInService::prepDropInWatcherEventLoop(const std::string& dir) {
     return 1;
   }
 
+  // The directory can be removed (and re-created) while the watch is being
+  // set up. A watch that lands on a directory which is already unlinked never
+  // reports IN_DELETE_SELF, so we would wait for events of a dead directory for
+  // good. Watching the path once more returns the same descriptor only if it
+  // still names the directory we watch; if it did at this point, the first
+  // watch was in place before any removal and that removal will be reported.
+  if (::inotify_add_watch(inotifyfd_, dir.c_str(), mask) != inotifywd_) {
+    OLOG << dir << " was replaced while setting up its watch, will retry";
+    ::close(inotifyfd_);
+    inotifyfd_ = -1;
+    inotifywd_ = -1;
+    return 1;
+  }
+
   // Add inotifyfd to epoll set
   struct epoll_event ev;
   std::memset(&ev, 0, sizeof(ev));
